@@ -73,7 +73,7 @@ class C16(Prop):
                 c = mk_grid_case("i64", [list(a) for a in axes], [[1, 1]], idxs)
                 c.profile = profile
                 yield c
-            nrand = 150 if tier == "quick" else 750
+            nrand = 150 if tier == "quick" else 3000
             for _ in range(nrand):
                 n = rng.range(0, 40)
                 data = [rng.range(-5, 5) for _ in range(n)]
